@@ -47,6 +47,8 @@ func drawStore(r *rand.Rand) store.Cfg {
 	c.SharedLabels = r.Intn(2) == 0
 	c.Trim = r.Intn(3) == 0 // a storage may return only what the querier range and the hints ask for
 	c.YieldEvery = []int{0, 1, 1, 2, 3, 7}[r.Intn(6)]
+	c.HoldRoutine = r.Intn(4) == 0
+	c.CtxErrors = r.Intn(3) == 0
 	return c
 }
 
@@ -112,8 +114,31 @@ func GenQueryOpt(r *rand.Rand, profile string, depthBonus int, pInstant float64,
 			do.MaxSeries = 6
 		}
 		data := gen.GenData(r, w, do)
+		if a, b := twinMetrics(data); a != "" && !g.HasTopK && r.Intn(2) == 0 {
+			// the dataset holds two series that take turns under one label set once the metric
+			// name is gone: read both through something that drops the name, so that whoever
+			// assembles the result has to merge them in time order whatever order they arrive in
+			sel := fmt.Sprintf(`{__name__=~"%s|%s"}`, a, b)
+			q = fmt.Sprintf([]string{"%s * 2", "%s + 0", "abs(%s)", "1 + %s", "%s > bool 0", "ceil(%s) - 1", "sum without (Z) (%s)", "clamp_min(%s, 0)"}[r.Intn(8)], sel)
+		}
 		return w, q, data, el, ql, g.HasTopK
 	}
+}
+
+// twinMetrics: two stored series whose labels are equal but for the metric name (gen.twin).
+func twinMetrics(data []store.Series) (string, string) {
+	seen := map[string]string{}
+	for _, s := range data {
+		if len(s.L) < 2 || s.L[0] != "__name__" {
+			continue
+		}
+		k := strings.Join(s.L[2:], "\xff")
+		if other, ok := seen[k]; ok && other != s.L[1] {
+			return other, s.L[1]
+		}
+		seen[k] = s.L[1]
+	}
+	return "", ""
 }
 
 func rangesIn(q string) []int64 {
